@@ -5,4 +5,9 @@ import engcommon
 ID = "C02"
 HARNESS = "c02_harness"
 COQ_TARGETS = engcommon.COQ_BASE + ["Props/C02.vo"]
-DEV = True    # until Props/C02.v exists
+
+MANIFEST = {'technique': 'Rocq proofs of termination with an explicit polynomial fuel (recursion depth) bound and of the activation bound remaining+2, for all grammars; differential run of activation logs against probes inside Memoize; crash/timeout detection', 'text': "Props/C02.v: C02_activation_bound (every grammar, no hypotheses: no Memoize body is active more than remaining+2 times at a position), C02_terminates and C02_terminates_bound (memoized recursive nonterminals + consuming repetition operands: every run finishes within fuel (len+1)((|K|(len+2)+1)(Sz+1)), which bounds the Go recursion depth), C02_old_rule_breaks_inv (sensitivity to the repaired defect). The check compares the model's activation log with probes placed inside every Memoize of the real engine and treats a fatal stack overflow or a stall of the Go process as a violation.", 'note': "Trusted: as C01; Go's stack limit itself is not modelled (the theorem bounds the recursion depth).", 'ref': 'DESIGN.md section 6, C02'}
+RULE = ("all one-rule monotone grammars up to a node bound x all inputs over {a,b} up to a length bound (enumerated), plus random "
+        "grammars over all combinators, named and unnamed; non-trivial = non-empty root result or failing Sentence parse; "
+        "distinct = distinct case text")
+CORRESPONDENCE = "engine model (coq/Engine.v, eng_expected) = implementation on the projection of this property"
